@@ -1,4 +1,5 @@
 import BufModel.ImagePaths
+import BufModel.LegacyStrip
 import Driver.Util
 /-
   Line protocol for C11.
@@ -16,6 +17,14 @@ import Driver.Util
     strip <TAB> byteshex          output: byteshex of stripBufExtensionField
 
     pimg  <TAB> dir(p2i|i2p) ...  see `handlePimg`
+
+    legacy <TAB> file             stripLegacyOptionsFromFile on one descriptor tree (BufModel.LegacyStrip)
+      file : space-separated prefix tokens
+             F rest nM msg.. nE fld..
+             msg = M rest mopts nF fld.. nN msg.. nR rng.. nE fld..     mopts = ~ | mset;rest
+             fld = number,fopts,rest      fopts = ~ | weak;rest         rng = start,stop,rest
+             (optional scalars: ~ = unset; booleans 0/1; rest = hash of everything the pass ignores)
+      output: A <file: the caller's descriptor after the call> R <~ | file: the replacement>
 -/
 namespace Driver.C11
 open BufModel.Path BufModel.ImagePaths Driver
@@ -110,7 +119,129 @@ def showPFile (p : PFile) : String :=
     "ok ext=" ++ ob e.isImport ++ ";" ++ ob e.syntaxUnspecified ++ ";" ++ showNats e.unused ++ ";" ++ mi ++
       " unk=" ++ hexOfBytes p.unknown
 
+/-! ### legacy: token codec for descriptor trees -/
+namespace Legacy
+open BufModel.LegacyStrip
+
+def optInt (s : String) : Option (Option Int) := if s = "~" then some none else s.toInt?.map some
+def optB (s : String) : Option (Option Bool) :=
+  if s = "~" then some none else if s = "1" then some (some true) else if s = "0" then some (some false) else none
+
+def parseFld (s : String) : Option Fld :=
+  match s.splitOn "," with
+  | [n, o, r] => do
+    let n ← optInt n
+    let r ← r.toNat?
+    let o ← (if o = "~" then some none else
+      match o.splitOn ";" with
+      | [w, orest] => do
+        let w ← optB w
+        let orest ← orest.toNat?
+        pure (some { weak := w, rest := orest })
+      | _ => none)
+    pure { number := n, opts := o, rest := r }
+  | _ => none
+
+def parseRng (s : String) : Option ERange :=
+  match s.splitOn "," with
+  | [a, b, r] => do
+    let a ← optInt a
+    let b ← optInt b
+    let r ← r.toNat?
+    pure { start := a, stop := b, rest := r }
+  | _ => none
+
+def parseMOpts (s : String) : Option (Option MOpts) :=
+  if s = "~" then some none else
+  match s.splitOn ";" with
+  | [m, r] => do
+    let m ← optB m
+    let r ← r.toNat?
+    pure (some { mset := m, rest := r })
+  | _ => none
+
+def takeN {α : Type} (p : String → Option α) : Nat → List String → Option (List α × List String)
+  | 0, ts => some ([], ts)
+  | n + 1, t :: ts => do
+    let x ← p t
+    let (xs, rest) ← takeN p n ts
+    pure (x :: xs, rest)
+  | _, [] => none
+
+mutual
+partial def parseMsg : List String → Option (Msg × List String)
+  | "M" :: rest :: mo :: nf :: ts => do
+    let rest ← rest.toNat?
+    let mo ← parseMOpts mo
+    let nf ← nf.toNat?
+    let (fs, ts) ← takeN parseFld nf ts
+    match ts with
+    | nn :: ts => do
+      let nn ← nn.toNat?
+      let (ns, ts) ← parseMsgs nn ts
+      match ts with
+      | nr :: ts => do
+        let nr ← nr.toNat?
+        let (rs, ts) ← takeN parseRng nr ts
+        match ts with
+        | ne :: ts => do
+          let ne ← ne.toNat?
+          let (es, ts) ← takeN parseFld ne ts
+          pure (Msg.mk rest mo fs ns rs es, ts)
+        | _ => none
+      | _ => none
+    | _ => none
+  | _ => none
+partial def parseMsgs : Nat → List String → Option (List Msg × List String)
+  | 0, ts => some ([], ts)
+  | n + 1, ts => do
+    let (m, ts) ← parseMsg ts
+    let (ms, ts) ← parseMsgs n ts
+    pure (m :: ms, ts)
+end
+
+def parseFileT : List String → Option BufModel.LegacyStrip.File
+  | "F" :: rest :: nm :: ts => do
+    let rest ← rest.toNat?
+    let nm ← nm.toNat?
+    let (ms, ts) ← parseMsgs nm ts
+    match ts with
+    | ne :: ts => do
+      let ne ← ne.toNat?
+      let (es, ts) ← takeN parseFld ne ts
+      if ts.isEmpty then pure { rest := rest, msgs := ms, exts := es } else none
+    | _ => none
+  | _ => none
+
+def showOI : Option Int → String | none => "~" | some i => toString i
+def showOB : Option Bool → String | none => "~" | some true => "1" | some false => "0"
+
+def showFld (f : Fld) : String :=
+  showOI f.number ++ "," ++ (match f.opts with | none => "~" | some o => showOB o.weak ++ ";" ++ toString o.rest) ++ "," ++ toString f.rest
+
+def showRng (r : ERange) : String := showOI r.start ++ "," ++ showOI r.stop ++ "," ++ toString r.rest
+
+partial def showMsg : Msg → List String
+  | .mk rest opts fields nested ranges exts =>
+    ["M", toString rest, (match opts with | none => "~" | some o => showOB o.mset ++ ";" ++ toString o.rest),
+     toString fields.length] ++ fields.map showFld ++ [toString nested.length] ++ (nested.map showMsg).flatten ++
+    [toString ranges.length] ++ ranges.map showRng ++ [toString exts.length] ++ exts.map showFld
+
+def showFile (f : BufModel.LegacyStrip.File) : String :=
+  " ".intercalate (["F", toString f.rest, toString f.msgs.length] ++ (f.msgs.map showMsg).flatten ++
+    [toString f.exts.length] ++ f.exts.map showFld)
+
+def handleLegacy (line : String) : String :=
+  match parseFileT ((line.splitOn " ").filter (· ≠ "")) with
+  | none => "bad-op"
+  | some f =>
+    let r := stripFile true f
+    "A " ++ showFile r.1 ++ " R " ++ (match r.2 with | none => "~" | some d => showFile d)
+
+end Legacy
+
 def handle : List String → String
+  | ["legacy", file] => Legacy.handleLegacy file
   | ["iwop", allow, files, pths, excl] =>
     match parseFiles files, parseStrs pths, parseStrs excl with
     | some img, some ps, some es => showImage (imageWithOnlyPaths img ps es (allow = "1"))
